@@ -46,3 +46,34 @@ Print Assumptions C07_route_bodies_unchanged.
 (* known finding F14 as a witness of the model: the int8-pack kernel is selected for in_features = 4 *)
 Example C07_int8pack_refuted : exists inf, src_route_cpu true DBF16 DInt8 1 inf 8 = RInt8Pack /\ (inf mod 16 <> 0)%Z.
 Proof. rewrite tie_route_cpu. exact int8pack_precondition_refuted. Qed.
+
+(* "within the floating-point error of one accumulation", IEEE arithmetic (Flocq), ANY binary format and ANY order
+   of accumulation.  An accumulation is a tree (Proofs/DotFloat.v): leaves are rounded products, inner nodes rounded
+   additions of two partial sums or fused multiply-adds (one rounding) - sequential, blocked, pairwise or vectorised
+   kernels with or without FMA are all such trees over the same K products.  Whenever the float result is finite
+   (no overflow anywhere):
+        | fl(T) - sum a_i*b_i |  <=  ((1+u)^h - 1) * sum |a_i*b_i|  +  n * (1+u)^h * eta
+   with h the height of the tree (<= K), n its number of nodes, u = 2^-prec, eta = half the smallest subnormal.
+   The audit's tolerance ((K+2)*u_acc + 5u) * sum|x||w| is the first-order instance. *)
+From Flocq Require Import Core IEEE754.BinarySingleNaN.
+From QV Require Import Float.F Proofs.FloatFacts Proofs.DotFloat.
+Theorem C07_accumulation_error : forall (prec emax : Z) (Hp : Prec_gt_0 prec) (Hpe : Prec_lt_emax prec emax)
+  (t : sumtree prec emax),
+  is_finite (feval prec emax Hp Hpe t) = true ->
+  (Rabs (B2R (feval prec emax Hp Hpe t) - reval prec emax t) <=
+   ((1 + uro prec) ^ height prec emax t - 1) * aeval prec emax t
+   + INR (size prec emax t) * (1 + uro prec) ^ height prec emax t * eta prec emax)%R.
+Proof. exact sumtree_error. Qed.
+Print Assumptions C07_accumulation_error.
+
+(* the textbook loop over K products is a tree of height K *)
+Theorem C07_sequential_height : forall prec emax first rest,
+  height prec emax (seq_tree prec emax first rest) = S (length rest).
+Proof. exact seq_tree_height. Qed.
+
+(* non-vacuity: a float32 accumulation of three products (one by FMA) whose result is finite *)
+Example C07_accumulation_example :
+  let a := f32_of_bits 1069547520%Z in let b := f32_of_bits 1077936128%Z in   (* 1.5, 3.0 *)
+  let t := SFma 24 128 a b (SAdd 24 128 (SProd 24 128 a a) (SProd 24 128 b b)) in
+  is_finite (feval 24 128 Hp24 Hpe24 t) = true /\ f32_to_bits (feval 24 128 Hp24 Hpe24 t) = 1098645504%Z.
+Proof. vm_compute. split; reflexivity. Qed.
